@@ -537,8 +537,9 @@ class HashModel:
         self.kind, self.ctor = _hash_mods()[spec[1]]
         k = self.kind
         if k == "xof":
+            # read(170) crosses the rate boundary of every XOF here (168 / 136 bytes) in a single call
             self.alphabet = [("update", M1), ("update", b""), ("read", 1), ("read", 0), ("read", 40), ("copy",),
-                             ("update", M2)]
+                             ("update", M2), ("read", 170)]
         else:
             self.alphabet = [("update", M1), ("update", b""), ("digest",), ("hexdigest",), ("copy",), ("update", M2)]
             if "mac" in k:
